@@ -92,7 +92,7 @@ theorem runUpdater_top (u : Updater) (now : Val) (fs : Fields) (field : String) 
   · split at h
     · cases h
     · split at h
-      · cases h
+      · cases h; exact TopOK.mk' hn
       · cases h; exact TopOK.dset _ _ hn
       · cases h
   · split at h
@@ -232,7 +232,7 @@ theorem pullAllField_top (spec d : Val) (field : String) (value r : Val) (hd : T
         · cases h; exact TopOK.mk' hn
       · refine withSubdoc_top _ _ ?_ _ _ _ fs r hn h
         intro ps last r' hps hf
-        simp only [bind, Except.bind, pure, Except.pure] at hf
+        simp only [pullAllAt, bind, Except.bind, pure, Except.pure] at hf
         split at hf
         · split at hf
           · cases hf
